@@ -155,6 +155,9 @@ macro_rules! pair {
         pe!(TrZ);
         pe!(u8);
         pe!(u64);
+        pe!(B3);
+        pe!(A64);
+        pe!(TrA);
     }};
 }
 macro_rules! upair {
@@ -171,6 +174,9 @@ macro_rules! upair {
         pe!(TrZ);
         pe!(u8);
         pe!(u64);
+        pe!(B3);
+        pe!(A64);
+        pe!(TrA);
     }};
 }
 macro_rules! grid {
